@@ -82,7 +82,7 @@ func ContContract(e, k int) string {
 	// every 17th key is not inlinable either (huge Int / 300-byte String)
 	if k == KeyInt {
 		key = "if k % 17 == 0 && k > 0 { return D.big() * k + k }; return k"
-		kd = "if k > 1000000000000 { return k % D.big() }; return k"
+		kd = "return k % 1000003"
 	} else {
 		key = `if k % 17 == 0 && k > 0 { return D.str(0, 300).concat("k").concat(k.toString()) }; return "k".concat(k.toString())`
 		kd = "var b = 1; if k.length > 100 { b = 301 }; return Int.fromString(k.slice(from: b, upTo: k.length))!"
@@ -359,7 +359,16 @@ func (m *ContModel) digests(seeds []int) []int {
 func (m *ContModel) dictDigest(d map[int]int) string {
 	sum := 0
 	for k, n := range d {
-		sum = (sum + ((k+1)*7919+ElemDigest(m.Elem, n))%contMod) % contMod
+		kd := k // D.kd(D.key(k))
+		if m.Key == KeyInt {
+			// huge keys (every 17th) are reduced modulo 1000003 like huge Int elements
+			if k%17 != 0 || k == 0 {
+				kd = k % 1000003
+			} else {
+				kd = int((bigModP*int64(k) + int64(k)) % 1000003)
+			}
+		}
+		sum = (sum + ((kd+1)*7919+ElemDigest(m.Elem, n))%contMod) % contMod
 	}
 	return fmt.Sprintf("%d:%d", len(d), sum)
 }
@@ -1214,6 +1223,15 @@ func genContOp(s Src, m *ContModel, local bool, fresh func() int) (ContOp, bool)
 		}
 		return fresh()
 	}
+	// a seed whose element is not inlinable for every element type (huge Int, 600-byte String, 130-element array)
+	bigSeed := func() int { return 1001 * (1 + s.Intn("bigseed", 50)) }
+	// a fresh element, a quarter of them big
+	elemSeed := func() int {
+		if chance(s, "bigelem", 25) {
+			return bigSeed()
+		}
+		return fresh()
+	}
 	// index into a sequence of length n: mostly valid, sometimes just outside
 	index := func(n int, inclusiveEnd bool) int {
 		hi := n
@@ -1237,18 +1255,20 @@ func genContOp(s Src, m *ContModel, local bool, fresh func() int) (ContOp, bool)
 		n := len(st.VA)
 		switch o.Kind {
 		case "append":
-			o.N = fresh()
+			o.N = elemSeed()
+		case "smallCopy":
+			o.N = bigSeed()
 		case "appendAll", "concat", "concatAssign":
 			o.I, o.J = fresh(), contBulk[s.Intn("bulk", len(contBulk))]
 			for k := 0; k < o.J; k++ {
 				fresh()
 			}
 		case "insert":
-			o.I, o.N = index(n, true), fresh()
+			o.I, o.N = index(n, true), elemSeed()
 		case "remove", "get":
 			o.I = index(n, false)
 		case "set":
-			o.I, o.N = index(n, false), fresh()
+			o.I, o.N = index(n, false), elemSeed()
 		case "removeFirst", "removeLast":
 			if n == 0 && !chance(s, "emptyremove", 20) {
 				return o, false
@@ -1283,7 +1303,7 @@ func genContOp(s Src, m *ContModel, local bool, fresh func() int) (ContOp, bool)
 		case "get":
 			o.I = index(ConstLen, false)
 		case "set":
-			o.I, o.N = index(ConstLen, false), fresh()
+			o.I, o.N = index(ConstLen, false), elemSeed()
 		case "contains", "firstIndex":
 			o.N = someSeed()
 		case "map":
@@ -1295,7 +1315,7 @@ func genContOp(s Src, m *ContModel, local bool, fresh func() int) (ContOp, bool)
 	case "d":
 		switch o.Kind {
 		case "insert", "set":
-			o.I, o.N = dictKey(), fresh()
+			o.I, o.N = dictKey(), elemSeed()
 		case "remove", "get", "setNil", "containsKey":
 			o.I = dictKey()
 		case "insertMany":
